@@ -408,6 +408,58 @@ def replay_setter_aliasing(args):
     return True, "not reproduced"
 
 
+def ob_from_json_options():
+    """TransformedParameter.from_json: the options of the transform written in the specification by NAME reach the constructor argument
+    of that name (whatever subset is given), so that the object reports the value and log-Jacobian of the transform that was specified"""
+    def body():
+        from torchtree.core.parameter import TransformedParameter
+        cases = [
+            ("torch.distributions.AffineTransform", {"loc": 1.0, "scale": 2.0}),
+            ("torch.distributions.AffineTransform", {"loc": 1.0, "scale": 2.0, "cache_size": 1}),
+            ("torch.distributions.AffineTransform", {"loc": 0.5, "scale": 3.0, "event_dim": 1}),
+            ("torch.distributions.AffineTransform", {"scale": 3.0, "loc": 0.5, "event_dim": 0, "cache_size": 1}),
+            ("torch.distributions.PowerTransform", {"exponent": 2.0}),
+            ("torch.distributions.PowerTransform", {"exponent": 2.0, "cache_size": 1}),
+            ("torch.distributions.ExpTransform", {"cache_size": 1}),
+            ("torch.distributions.SigmoidTransform", {}),
+        ]
+        n = 0
+        for path, opts in cases:
+            spec = {"id": "t", "type": "TransformedParameter", "transform": path, "x": {"id": "x", "type": "Parameter", "tensor": [0.3, 1.2, 0.7], "dtype": "torch.float64"}}
+            if opts:
+                spec["parameters"] = dict(opts)
+            tp = TransformedParameter.from_json(spec, {})
+            mod, _, cls = path.rpartition(".")
+            import importlib
+            ref = getattr(importlib.import_module(mod), cls)(**opts)
+            x = torch.tensor([0.3, 1.2, 0.7], dtype=torch.float64)
+            y = ref(x)
+            want = ref.log_abs_det_jacobian(x, y)
+            got = tp()
+            n += 1
+            if tuple(got.shape) != tuple(want.shape) or not torch.allclose(got, want, rtol=1e-12, atol=1e-12) or not torch.allclose(tp.tensor, y, rtol=1e-12, atol=1e-12):
+                raise Refuted("TransformedParameter.from_json with transform %s and parameters %s: () returns %s (shape %s), the transform with these options has log-Jacobian %s (shape %s)" % (
+                    path, opts, got.tolist(), tuple(got.shape), want.tolist(), tuple(want.shape)), witness={"transform": path, "parameters": opts}, confirmed=True,
+                    replay={"kind": "custom", "contract": "C07", "func": "replay_from_json_options", "args": {}})
+            for k_, v_ in opts.items():
+                have = getattr(tp.transform, k_, getattr(tp.transform, "_" + k_, None))
+                if have is not None and not isinstance(have, torch.Tensor) and have != v_:
+                    raise Refuted("TransformedParameter.from_json with transform %s and parameters %s: the transform was built with %s = %r" % (path, opts, k_, have),
+                                  witness={"transform": path, "parameters": opts}, confirmed=True,
+                                  replay={"kind": "custom", "contract": "C07", "func": "replay_from_json_options", "args": {}})
+        return {"backend": "concrete", "cases": n, "bounded": "%d transform / option-subset combinations" % n,
+                "statement": "the transform built by TransformedParameter.from_json is the transform with the named options"}
+    return Ob("C07.transformed_parameter.from_json_options", "B", body, clause="the log-Jacobian reported is that of the transform written in the specification (bounded)", funcs=FUNCS)
+
+
+def replay_from_json_options(args):
+    try:
+        ob_from_json_options().fn()
+    except Refuted as e:
+        return False, str(e)
+    return True, "not reproduced"
+
+
 def ob_ladj_raises(kind_name, ctor):
     def body():
         t = ctor()
@@ -509,6 +561,7 @@ def obligations(tier, seed):
                 "TransformedParameter() returns the log-Jacobian of its current value (base changed through another consumer)")
     for kind in ("log", "cumsumexp", "cumsumsoftplus", "softplus", "cumsum"):
         obs.append(ob_setter_aliasing(kind))
+    obs.append(ob_from_json_options())
     for dim in (1, 2, 3):
         add("C07.trilexp[dim=%d]" % dim, "scn_trilexp", (dim,), "log-Jacobian and inverse (triangular-exp)")
     import torchtree.distributions.transforms as tr
